@@ -475,6 +475,10 @@ PRIOR_MODULES = {
     "student_t": lambda: gpytorch.likelihoods.StudentTLikelihood(noise_prior=P.GammaPrior(2.0, 3.0), deg_free_prior=P.GammaPrior(9.0, 2.0)),
     "laplace": lambda: gpytorch.likelihoods.LaplaceLikelihood(noise_prior=P.GammaPrior(2.0, 3.0)),
     "beta": lambda: gpytorch.likelihoods.BetaLikelihood(scale_prior=P.GammaPrior(2.0, 3.0)),
+    "softmax": lambda: gpytorch.likelihoods.SoftmaxLikelihood(num_features=2, num_classes=3, mixing_weights_prior=P.NormalPrior(0.3, 1.1)),
+    "constant_mean_grad": lambda: gpytorch.means.ConstantMeanGrad(prior=P.NormalPrior(0.3, 1.1)),
+    "constant_mean": lambda: gpytorch.means.ConstantMean(constant_prior=P.NormalPrior(0.3, 1.1)),
+    "hamming": lambda: K.HammingIMQKernel(vocab_size=3, alpha_prior=P.GammaPrior(2.0, 3.0), beta_prior=P.GammaPrior(2.5, 3.5)),
     "multitask_rank0": lambda: gpytorch.likelihoods.MultitaskGaussianLikelihood(num_tasks=2, rank=0, noise_prior=P.GammaPrior(2.0, 3.0)),
     "multitask_rank1": lambda: gpytorch.likelihoods.MultitaskGaussianLikelihood(num_tasks=2, rank=1, task_prior=P.NormalPrior(0.3, 1.1),
                                                                                noise_prior=P.GammaPrior(2.0, 3.0)),
